@@ -70,6 +70,27 @@ pub struct ConsObs {
     /// A `Stall` step was applied to this consumer's reader at some point (only a stalled reader
     /// leaves frames that are available unread while virtual time passes).
     pub ever_stalled: bool,
+    /// Virtual milliseconds at the script step that attached the consumer / made the harness drop its
+    /// reader / drop or close its command writer (the halves really go at that instant or later).
+    pub att_ms: u64,
+    pub reader_drop_ms: Option<u64>,
+    pub writer_gone_ms: Option<u64>,
+}
+
+/// The final idle period of a conversation that ends with `EndKind::FinalIdle`.
+#[derive(Clone, Debug)]
+pub struct FinalIdle {
+    /// The runtime task had not terminated when the last consumer was made to leave.
+    pub runtime_alive_before: bool,
+    /// Events the lane sent (completely) after everybody had left, each followed by a quiet point.
+    pub events_after_departure: usize,
+    /// Virtual milliseconds at which the period of nothing at all began / ended.
+    pub from_ms: u64,
+    pub until_ms: u64,
+    /// Ticket at the end of the period.
+    pub t_end: u64,
+    /// The runtime task had terminated by itself at the end of the period.
+    pub stopped: bool,
 }
 
 #[derive(Clone)]
@@ -91,6 +112,10 @@ pub struct Obs {
     pub quiet: Vec<(u64, u64)>,
     /// Virtual milliseconds since the start at the quiescent point.
     pub ms_at_q: u64,
+    /// (ticket, virtual milliseconds) at which the runtime's `run` future completed by itself (never set
+    /// when the harness aborts the task).
+    pub runtime_end: Option<(u64, u64)>,
+    pub final_idle: Option<FinalIdle>,
 }
 
 struct Live {
@@ -107,6 +132,9 @@ struct Live {
     /// The harness has not dropped the reader.
     listening: bool,
     ever_stalled: bool,
+    att_ms: u64,
+    reader_drop_ms: Option<u64>,
+    writer_gone_ms: Option<u64>,
 }
 
 impl Live {
@@ -143,14 +171,27 @@ pub fn run_case(cfg: &Config, script: &[Step], rng: &mut Rng) -> Obs {
             downlink_buffer_size: nz(4096),
         };
         let jr = rng.fork();
+        let start = tokio::time::Instant::now();
+        let now_ms = move || start.elapsed().as_millis() as u64;
+        // Set by the runtime's own task when `run` returns: the virtual instant at which it stopped.
+        let runtime_end: Arc<Mutex<Option<(u64, u64)>>> = Arc::new(Mutex::new(None));
+        let re = runtime_end.clone();
         let runtime: JoinHandle<()> = match kind {
             LaneKind::Value => {
                 let r = ValueDownlinkRuntime::new(att_rx, (req_tx, resp_rx), stop_rx, address, config);
-                tokio::spawn(Jitter::new(r.run(), jr, cfg.jitter))
+                let run = async move {
+                    r.run().await;
+                    *re.lock() = Some((ticket(), now_ms()));
+                };
+                tokio::spawn(Jitter::new(run, jr, cfg.jitter))
             }
             LaneKind::Map => {
                 let r = MapDownlinkRuntime::new(att_rx, (req_tx, resp_rx), stop_rx, address, config, AlwaysAbortStrategy);
-                tokio::spawn(Jitter::new(r.run(), jr, cfg.jitter))
+                let run = async move {
+                    r.run().await;
+                    *re.lock() = Some((ticket(), now_ms()));
+                };
+                tokio::spawn(Jitter::new(run, jr, cfg.jitter))
             }
         };
 
@@ -172,8 +213,6 @@ pub fn run_case(cfg: &Config, script: &[Step], rng: &mut Rng) -> Obs {
         let n = cfg.consumers.len();
         let mut live: Vec<Option<Live>> = (0..n).map(|_| None).collect();
         let mut stuck: Vec<String> = vec![];
-        let start = tokio::time::Instant::now();
-        let now_ms = move || start.elapsed().as_millis() as u64;
         let mut quiet: Vec<(u64, u64)> = vec![];
         // Since when nobody has been listening (harness' view).
         let mut idle_since: Option<u64> = Some(0);
@@ -224,6 +263,9 @@ pub fn run_case(cfg: &Config, script: &[Step], rng: &mut Rng) -> Obs {
                         idle_ms_before_attach,
                         listening: accepted,
                         ever_stalled: false,
+                        att_ms: now_ms(),
+                        reader_drop_ms: None,
+                        writer_gone_ms: None,
                     });
                 }
                 Step::Cmd(c, cmd) => {
@@ -258,17 +300,20 @@ pub fn run_case(cfg: &Config, script: &[Step], rng: &mut Rng) -> Obs {
                 Step::DropReader(c) => {
                     if let Some(l) = live[*c].as_mut() {
                         l.drop_reader();
+                        l.reader_drop_ms.get_or_insert(now_ms());
                     }
                 }
                 Step::DropWriter(c) => {
                     if let Some(l) = live[*c].as_mut() {
                         l.drop_writer();
+                        l.writer_gone_ms.get_or_insert(now_ms());
                     }
                 }
                 Step::CloseWriter(c) => {
                     if let Some(l) = live[*c].as_mut() {
                         if let Some(wtx) = l.wtx.take() {
                             let _ = wtx.send(WOp::Close);
+                            l.writer_gone_ms.get_or_insert(now_ms());
                         }
                     }
                 }
@@ -276,12 +321,15 @@ pub fn run_case(cfg: &Config, script: &[Step], rng: &mut Rng) -> Obs {
                     if let Some(l) = live[*c].as_mut() {
                         l.drop_reader();
                         l.drop_writer();
+                        l.reader_drop_ms.get_or_insert(now_ms());
+                        l.writer_gone_ms.get_or_insert(now_ms());
                     }
                 }
                 Step::DropMidFrame(c, cmd, per_mille) => {
                     if let Some(l) = live[*c].as_mut() {
                         if let Some(wtx) = l.wtx.take() {
                             let _ = wtx.send(WOp::Partial(cmd.clone(), *per_mille));
+                            l.writer_gone_ms.get_or_insert(now_ms());
                         }
                     }
                 }
@@ -367,11 +415,45 @@ pub fn run_case(cfg: &Config, script: &[Step], rng: &mut Rng) -> Obs {
                 for l in live.iter_mut().flatten() {
                     l.drop_reader();
                     l.drop_writer();
+                    l.reader_drop_ms.get_or_insert(now_ms());
+                    l.writer_gone_ms.get_or_insert(now_ms());
                 }
             }
-            EndKind::Nothing => {}
+            EndKind::Nothing | EndKind::FinalIdle => {}
         }
-        if cfg.end != EndKind::Nothing {
+        let mut final_idle = None;
+        if cfg.end == EndKind::FinalIdle {
+            // Everybody leaves (both halves). The write task sees the end of every command stream at
+            // once; the read task only when forwarding fails: the first event is buffered and its
+            // flush fails, the second lets the read task look at that result and start its timer (a
+            // third for good measure). Then nothing at all for five timeouts.
+            let runtime_alive_before = runtime.as_ref().map_or(false, |h| !h.is_finished());
+            for l in live.iter_mut().flatten() {
+                l.drop_reader();
+                l.drop_writer();
+                l.reader_drop_ms.get_or_insert(now_ms());
+                l.writer_gone_ms.get_or_insert(now_ms());
+            }
+            settle().await;
+            quiet.push((ticket(), now_ms()));
+            let sent_before = lane_log.lock().sent.iter().filter(|s| s.t1.is_some()).count();
+            for j in 0..3u64 {
+                lane_op(LaneOp::Apply(match kind {
+                    LaneKind::Value => crate::peers::Ev::Set(0xffff_fff0 + j),
+                    LaneKind::Map => crate::peers::Ev::Upd(999, 0xffff_fff0 + j),
+                }));
+                settle().await;
+                quiet.push((ticket(), now_ms()));
+            }
+            let events_after_departure = lane_log.lock().sent.iter().filter(|s| s.t1.is_some()).count() - sent_before;
+            let from_ms = now_ms();
+            tokio::time::sleep(Duration::from_millis(cfg.timeout_ms * 5 + 5)).await;
+            let stopped = runtime_end.lock().is_some();
+            final_idle = Some(FinalIdle { runtime_alive_before, events_after_departure, from_ms, until_ms: now_ms(), t_end: ticket(), stopped });
+            if let Some(h) = runtime.as_ref() {
+                runtime_finished = h.is_finished();
+            }
+        } else if cfg.end != EndKind::Nothing {
             settle().await;
             if cfg.end == EndKind::AllLeave {
                 // The read task only notices that a consumer is gone when it writes to it.
@@ -421,6 +503,9 @@ pub fn run_case(cfg: &Config, script: &[Step], rng: &mut Rng) -> Obs {
                     frames_at_q: 0,
                     idle_ms_before_attach: None,
                     ever_stalled: false,
+                    att_ms: 0,
+                    reader_drop_ms: None,
+                    writer_gone_ms: None,
                 });
                 continue;
             };
@@ -446,6 +531,9 @@ pub fn run_case(cfg: &Config, script: &[Step], rng: &mut Rng) -> Obs {
                 frames_at_q,
                 idle_ms_before_attach: l.idle_ms_before_attach,
                 ever_stalled: l.ever_stalled,
+                att_ms: l.att_ms,
+                reader_drop_ms: l.reader_drop_ms,
+                writer_gone_ms: l.writer_gone_ms,
             });
         }
         let lane = {
@@ -463,6 +551,7 @@ pub fn run_case(cfg: &Config, script: &[Step], rng: &mut Rng) -> Obs {
                 busy: g.busy,
             }
         };
-        Obs { cons, lane, q, runtime_alive_at_q, lane_idle_at_q, runtime_finished, stuck, runtime_panic, harness_panics, quiet, ms_at_q }
+        let runtime_end = *runtime_end.lock();
+        Obs { cons, lane, q, runtime_alive_at_q, lane_idle_at_q, runtime_finished, stuck, runtime_panic, harness_panics, quiet, ms_at_q, runtime_end, final_idle }
     })
 }
